@@ -111,10 +111,14 @@ theorem grating_unit_triple (lam a b d m : ℝ)
     (h : 0 ≤ 1 - (a - d * m * lam) ^ 2 - b ^ 2) :
     (anglesFromGrating3D lam a b d m).1 ^ 2 + (anglesFromGrating3D lam a b d m).2.1 ^ 2 +
       (anglesFromGrating3D lam a b d m).2.2 ^ 2 = 1 := by
+  -- (stated for whatever form the regenerated definition gives its two cosines and its radicand)
+  have key : ∀ x y r : ℝ, r = 1 - x ^ 2 - y ^ 2 → 0 ≤ r → x ^ 2 + y ^ 2 + Real.sqrt r ^ 2 = 1 := by
+    intro x y r hr h0; rw [Real.sq_sqrt h0, hr]; ring
   simp only [anglesFromGrating3D, anum_sqrt, pow2, lit]
-  have hr : (1.0 : ℝ) - (-d * m * lam + a) * (-d * m * lam + a) - -b * -b = 1 - (a - d * m * lam) ^ 2 - b ^ 2 := by
+  apply key
+  · norm_num; ring
+  · convert h using 1
     norm_num; ring
-  rw [hr, Real.sq_sqrt h]; ring
 
 /-- **snell_eq.** `n · α_out = α_in`, `n · β_out = β_in` (for `n ≠ 0`), unit triple where defined. -/
 theorem snell_eq (n a b g : ℝ) (hn : n ≠ 0) :
@@ -124,9 +128,13 @@ theorem snell_eq (n a b g : ℝ) (hn : n ≠ 0) :
 
 theorem snell_unit_triple (n a b g : ℝ) (h : 0 ≤ 1 - (a / n) ^ 2 - (b / n) ^ 2) :
     (snell3D n a b g).1 ^ 2 + (snell3D n a b g).2.1 ^ 2 + (snell3D n a b g).2.2 ^ 2 = 1 := by
+  have key : ∀ x y r : ℝ, r = 1 - x ^ 2 - y ^ 2 → 0 ≤ r → x ^ 2 + y ^ 2 + Real.sqrt r ^ 2 = 1 := by
+    intro x y r hr h0; rw [Real.sq_sqrt h0, hr]; ring
   simp only [snell3D, anum_sqrt, pow2, lit]
-  have hr : (1.0 : ℝ) - a / n * (a / n) - b / n * (b / n) = 1 - (a / n) ^ 2 - (b / n) ^ 2 := by norm_num; ring
-  rw [hr, Real.sq_sqrt h]; ring
+  apply key
+  · norm_num; ring
+  · convert h using 1
+    norm_num; ring
 
 /-- **sellmeier_glass_formula.** `n² = 1 + Σ Bᵢ λ² / (λ² − Cᵢ)` wherever the right-hand side is
     non-negative. -/
